@@ -106,7 +106,7 @@ def host_proto(G):
             inits.append(onnx.numpy_helper.from_array(np.asarray(val, dtype=np.int64), name))
         else:
             inits.append(onnx.numpy_helper.from_array(np.asarray(val, dtype=np.float32), name))
-    vi = lambda nm: helper.make_tensor_value_info(nm, TensorProto.FLOAT, None)  # noqa: E731
+    vi = lambda nm: helper.make_tensor_value_info(nm, TensorProto.FLOAT, ["N"])  # noqa: E731
     g = helper.make_graph(nodes, "host", [vi(i) for i in G["inputs"]], [vi(o) for o in G["outputs"]], initializer=inits)
     return helper.make_model(g, opset_imports=[helper.make_opsetid("", 13), helper.make_opsetid("custom", 1)], ir_version=8)
 
@@ -306,8 +306,9 @@ def _valid(P):
                     if names.setdefault(a[1], ("v", a[2])) != ("v", a[2]):
                         return False
             if v is not None and v[0] == "or" and v[2]:
-                if names.setdefault(v[2], ("tag",)) != ("tag",):
-                    return False
+                if v[2] in names:
+                    return False  # a tag variable belongs to one OR
+                names[v[2]] = ("tag",)
         for ap in n.get("attrs", {}).values():
             if ap[0] == "av":
                 if ap[1] in names:
@@ -344,8 +345,9 @@ def or_family(ops_inner):
             yield {"nodes": [na, nb, r], "outs": [["o", 2, 0]]}
 
 
-def pattern_universe(stratum, kmax, budget, with_or_family=False):
-    """Patterns of one stratum: skeletons with <= kmax nodes, each with <= budget decorations."""
+def pattern_universe(stratum, kmax, budget, with_or_family=False, keep=None):
+    """Patterns of one stratum: skeletons with <= kmax nodes, each with <= budget decorations.
+    keep="opt": only patterns with a Split node or a node pattern whose input count differs from the op's arity / aoi."""
     ops = {"core": ["Neg", "Add", "Sub", "Split"], "attr": ["Neg", "Elu", "CNeg", "Sub"]}[stratum]
     seen, out = set(), []
 
@@ -378,12 +380,14 @@ def pattern_universe(stratum, kmax, budget, with_or_family=False):
     if with_or_family and stratum == "core":
         for P in or_family(["Neg", "Add", "Sub"]):
             add(P)
+    if keep == "opt":
+        out = [P for P in out if any(n["op"] == "Split" or n.get("aoi") or len(n["in"]) != ARITY[n["op"]][0] for n in P["nodes"])]
     return out
 
 
 # ----------------------------------------------------------------------------- host universe
+# (op, n_inputs, n_outputs, attrs, domain, extra_input)
 HOST_KINDS = {
-    # (op, n_inputs, n_outputs, attrs, domain, extra_input)
     "core": [("Neg", 1, 1, {}, "", None), ("Add", 2, 1, {}, "", None), ("Sub", 2, 1, {}, "", None), ("Split", 1, 2, {}, "", None)],
     "attr": [("Neg", 1, 1, {}, "", None), ("Elu", 1, 1, {}, "", None), ("Elu", 1, 1, {"alpha": 2.0}, "", None),
              ("Neg", 1, 1, {}, "custom", None), ("Neg", 1, 1, {"p": 1}, "custom", None), ("Neg", 1, 1, {"p": 1, "q": 5}, "custom", None),
@@ -392,78 +396,128 @@ HOST_KINDS = {
 }
 
 
-def _host_canon(nodes, outputs):
-    """Canonical key up to node order and a<->b."""
-    best = None
-    n = len(nodes)
-    for perm in itertools.permutations(range(n)):
-        for swap in ({"a": "a", "b": "b"}, {"a": "b", "b": "a"}):
-            ren = dict(swap)
-            ren["c"] = "c"
-            ren["s"] = "s"
-            ok, ser = True, []
-            for newi, oldi in enumerate(perm):
-                nd = nodes[oldi]
-                ins = []
-                for x in nd["in"]:
-                    if x not in ren:
-                        ok = False
-                        break
-                    ins.append(ren[x])
-                if not ok:
-                    break
-                for kk, o in enumerate(nd["out"]):
-                    ren[o] = f"t{newi}_{kk}"
-                ser.append((nd["op"], nd.get("domain", ""), tuple(ins), tuple(sorted(nd.get("attrs", {}).items()))))
-            if not ok:
-                continue
-            key = (tuple(ser), tuple(sorted(ren[o] for o in outputs)))
-            if best is None or key < best:
-                best = key
-    return best
-
-
-def host_universe(stratum, nmax, leaves=("a", "b", "c")):
-    """All host graphs with 1..nmax nodes over the stratum's node kinds, up to isomorphism (node order, a<->b),
-    with the graph-output variants: U = unconsumed node outputs; U + one consumed value; U - one value (|U|>1)."""
+def cones(stratum, nmax, leaves, pair=False):
+    """Rooted host graphs: every node is an ancestor of the root (`pair`: of one of two roots), at most nmax nodes,
+    each exactly once up to isomorphism (DFS-canonical numbering from the root; graph input `b` only after `a`).
+    Yields (nodes, root) with nodes in topological order; node = {"op","in","out","attrs"[,"domain"]}."""
     kinds = HOST_KINDS[stratum]
-    seen, out = set(), []
+    out = []
 
-    def finish(nodes):
-        consumed = {x for nd in nodes for x in nd["in"]}
-        allv = [o for nd in nodes for o in nd["out"]]
-        U = [v for v in allv if v not in consumed]
-        variants = [U] + [U + [v] for v in allv if v in consumed]
-        if len(U) > 1:
-            variants += [[u for u in U if u != v] for v in U]
-        for outs in variants:
-            key = _host_canon(nodes, outs)
-            if key in seen:
-                continue
-            seen.add(key)
-            used = {x for nd in nodes for x in nd["in"]}
-            inits = {}
-            if "c" in used:
-                inits["c"] = 1.0
-            if "s" in used:
-                inits["s"] = [1, 1]
-            out.append({"inputs": ["a", "b"], "inits": inits, "nodes": copy.deepcopy(nodes), "outputs": sorted(outs)})
+    def consumers_closure(nodes, j):
+        res, changed = {j}, True
+        while changed:
+            changed = False
+            for i, nd in enumerate(nodes):
+                if i not in res and any(isinstance(x, tuple) and x[0] in res for x in nd[1]):
+                    res.add(i)
+                    changed = True
+        return res
 
-    def rec(nodes, avail):
-        if nodes:
-            finish(nodes)
-        if len(nodes) == nmax:
+    def emit(nodes):
+        real = [(i, nd) for i, nd in enumerate(nodes) if nd[0] is not None]
+        order = []
+
+        def visit(i):  # DFS post-order: producers first
+            if i in order or nodes[i][0] is None:
+                return
+            for x in nodes[i][1]:
+                if isinstance(x, tuple):
+                    visit(x[0])
+            order.append(i)
+
+        if pair:
+            for x in nodes[0][1]:
+                visit(x[0])
+        else:
+            visit(0)
+        pos = {i: k for k, i in enumerate(order)}
+        res = []
+        for i in order:
+            kind = nodes[i][0]
+            ins = [(f"t{pos[x[0]]}_{x[1]}" if isinstance(x, tuple) else x) for x in nodes[i][1]]
+            nd = {"op": kind[0], "in": ins + ([kind[5]] if kind[5] else []), "out": [f"t{pos[i]}_{k}" for k in range(kind[2])],
+                  "attrs": dict(kind[3])}
+            if kind[4]:
+                nd["domain"] = kind[4]
+            res.append(nd)
+        root = pos[nodes[0][1][0][0]] if pair else pos[0]
+        out.append((res, root))
+
+    def expand(nodes, holes):
+        if not holes:
+            emit(nodes)
             return
-        j = len(nodes)
-        for op, nin, nout, attrs, dom, extra in kinds:
-            for ins in itertools.product(avail, repeat=nin):
-                nd = {"op": op, "in": list(ins) + ([extra] if extra else []), "out": [f"t{j}_{kk}" for kk in range(nout)], "attrs": dict(attrs)}
-                if dom:
-                    nd["domain"] = dom
-                rec(nodes + [nd], avail + nd["out"])
+        (j, p), rest = holes[0], holes[1:]
+        is_pair_hole = pair and j == 0
+        if not is_pair_hole:
+            for lf in leaves:
+                if lf == "b" and not any(x == "a" for nd in nodes for x in nd[1]):
+                    continue
+                nodes[j][1][p] = lf
+                expand(nodes, rest)
+                nodes[j][1][p] = None
+        banned = consumers_closure(nodes, j)
+        for i, nd in enumerate(nodes):
+            if i in banned or nd[0] is None:
+                continue
+            for k in range(nd[0][2]):
+                nodes[j][1][p] = (i, k)
+                expand(nodes, rest)
+                nodes[j][1][p] = None
+        if sum(1 for nd in nodes if nd[0] is not None) < nmax:
+            for kind in kinds:
+                i = len(nodes)
+                nodes.append((kind, [None] * kind[1]))
+                for k in range(kind[2]):
+                    nodes[j][1][p] = (i, k)
+                    expand(nodes, [(i, q) for q in range(kind[1])] + rest)
+                nodes[j][1][p] = None
+                nodes.pop()
 
-    rec([], list(leaves))
+    if pair:
+        nodes = [(None, [None, None])]
+        expand(nodes, [(0, 0), (0, 1)])
+    else:
+        for kind in kinds:
+            nodes = [(kind, [None] * kind[1])]
+            expand(nodes, [(0, q) for q in range(kind[1])])
     return out
+
+
+def make_host(nodes, root, flags=None):
+    """Host graph from a cone.  flags: {value: "out" | "use"}; default: the root's outputs are the graph outputs.
+    "use" adds an observer node Neg(value) (outside the cone) whose result is a graph output."""
+    nodes = copy.deepcopy(nodes)
+    if flags is None:
+        flags = {o: "out" for o in nodes[root]["out"]}
+    outputs = []
+    for v, f in flags.items():
+        if f == "out":
+            outputs.append(v)
+        elif f == "use":
+            k = len(nodes)
+            nodes.append({"op": "Neg", "in": [v], "out": [f"obs{k}"], "attrs": {}})
+            outputs.append(f"obs{k}")
+    used = {x for nd in nodes for x in nd["in"]}
+    inits = {}
+    if "c" in used:
+        inits["c"] = 1.0
+    if "s" in used:
+        inits["s"] = [1, 1]
+    return {"inputs": ["a", "b"], "inits": inits, "nodes": nodes, "outputs": outputs}
+
+
+def flag_variants(nodes, root, rng, cap=48):
+    """Graph-output / outside-consumer variants of a cone: every value gets one of {-, out, use}; the root's first
+    output never '-' (a graph needs an output).  More than `cap` variants: a deterministic sample."""
+    vals = [o for nd in nodes for o in nd["out"]]
+    r0 = nodes[root]["out"][0]
+    spaces = [(("out", "use") if v == r0 else ("-", "out", "use")) for v in vals]
+    allv = list(itertools.product(*spaces))
+    if len(allv) > cap:
+        allv = rng.sample(allv, cap)
+    for combo in allv:
+        yield {v: f for v, f in zip(vals, combo) if f != "-"}
 
 
 # ----------------------------------------------------------------------------- random pairs
@@ -504,7 +558,7 @@ def random_pair(rng, max_p=8, max_g=20):
         if r < 0.08:
             nd["in"].append(None)
         elif r < 0.16:
-            nd["in"].append(V(f"n{j}", True))
+            nd["in"].append(V(f"opt{j}", True))
         elif r < 0.22:
             nd["aoi"] = True
         nodes.append(nd)
@@ -522,7 +576,7 @@ def random_pair(rng, max_p=8, max_g=20):
                 jj, i = rng.choice(cands)
                 e = nodes[jj]["in"][i]
                 alts = [e, ["o", j, 0]] if rng.random() < 0.5 else [["o", j, 0], e]
-                nodes[jj]["in"][i] = ["or", alts, f"tag{jj}" if rng.random() < 0.5 else None]
+                nodes[jj]["in"][i] = ["or", alts, f"tag{jj}_{i}" if rng.random() < 0.5 else None]
             else:
                 P["outs"].append(["o", j, 0])
             reach = set()
